@@ -31,6 +31,11 @@ type vSec struct {
 	failAll  atomic.Bool
 	slow     atomic.Bool
 	errCount atomic.Int64
+	hold     atomic.Bool   // Set calls wait on holdCh (a stalled secondary store)
+	holdCh   chan struct{} // closed to let them go
+	hoMu     sync.Mutex
+	hoKeys   []int // keys handed to the workers, in order
+	takes    atomic.Int64
 }
 
 func (s *vSec) Get(key int) (int, int64, int64, bool, error) {
@@ -45,6 +50,9 @@ func (s *vSec) Get(key int) (int, int64, int64, bool, error) {
 }
 
 func (s *vSec) Set(key int, value int, cost int64, expire int64) error {
+	if s.hold.Load() {
+		<-s.holdCh
+	}
 	if s.failAll.Load() || s.failSet.Load() > 0 {
 		if !s.failAll.Load() {
 			s.failSet.Add(-1)
@@ -102,8 +110,13 @@ func vNewHybrid(tr *vTrace, maxsize int64, loading bool, start int64) (*vH, *vSe
 			switch point {
 			case VpHandoff:
 				h.handoffs.Add(1)
+				sec.hoMu.Lock()
+				sec.hoKeys = append(sec.hoKeys, En0(vEntry(b)))
+				sec.hoMu.Unlock()
 			case VpSecDone:
 				h.secDone.Add(1)
+			case VpSecTake:
+				sec.takes.Add(1)
 			}
 		}
 		h.handle(point, a, b, c, n)
@@ -182,6 +195,42 @@ func (h *vH) settleHybrid() bool {
 	return true
 }
 
+// acct summarises, at a settled point (write queue drained, workers idle), how the eviction policy's view
+// compares with the shard maps: resident entries in no policy list, policy entries that are not resident,
+// the policy total against the resident cost.
+func (h *vH) acct() (untracked, ghost int, ws, rcost int64) {
+	s := h.store
+	s.policyMu.Lock()
+	defer s.policyMu.Unlock()
+	resident := map[*Entry[int, int]]bool{}
+	s.RangeEntry(func(e *Entry[int, int]) {
+		resident[e] = true
+		rcost += e.weight.Load()
+	})
+	tracked := map[*Entry[int, int]]bool{}
+	for _, l := range []*List[int, int]{s.policy.window, s.policy.slru.probation, s.policy.slru.protected} {
+		n := 0
+		for e := l.Front(); e != nil && n < 100000; e = e.Next(l.listType) {
+			tracked[e] = true
+			if !resident[e] {
+				ghost++
+			}
+			n++
+		}
+	}
+	for e := range resident {
+		if !tracked[e] {
+			untracked++
+		}
+	}
+	return untracked, ghost, int64(s.policy.weightedSize), rcost
+}
+
+func (h *vH) emitSettled(sec *vSec) {
+	u, g, ws, rc := h.acct()
+	h.tr.Emit(vRec{"ev": "settled", "resident": h.store.Len(), "errs": sec.errCount.Load(), "untracked": u, "ghost": g, "ws": ws, "rcost": rc})
+}
+
 func vHybridRun(tr *vTrace, id string, salt int64) (hang bool) {
 	rnd := vRand(salt)
 	maxsize := int64(2 + rnd.Intn(5))
@@ -253,14 +302,14 @@ func vHybridRun(tr *vTrace, id string, salt int64) (hang bool) {
 				tr.Emit(vRec{"ev": "hang", "p": "c1", "op": "settle"})
 				return true
 			}
-			tr.Emit(vRec{"ev": "settled", "resident": h.store.Len(), "errs": sec.errCount.Load()})
+			h.emitSettled(sec)
 		}
 	}
 	if !h.settleHybrid() {
 		tr.Emit(vRec{"ev": "hang", "p": "c1", "op": "settle"})
 		return true
 	}
-	tr.Emit(vRec{"ev": "settled", "resident": h.store.Len(), "errs": sec.errCount.Load()})
+	h.emitSettled(sec)
 	// every key once more, after everything has settled
 	tr.Emit(vRec{"ev": "final"})
 	for k := 1; k <= keys; k++ {
@@ -329,7 +378,7 @@ func vHybridLateJoin(tr *vTrace, id string, salt int64) (hang bool) {
 			return true
 		}
 	}
-	tr.Emit(vRec{"ev": "settled", "resident": h.store.Len(), "errs": sec.errCount.Load()})
+	h.emitSettled(sec)
 	k := 0
 	for x := 1; x <= 5 && k == 0; x++ {
 		sec.mu.Lock()
@@ -423,7 +472,150 @@ func vHybridLateJoin(tr *vTrace, id string, salt int64) (hang bool) {
 		tr.Emit(vRec{"ev": "hang", "p": "c1", "op": "settle"})
 		return true
 	}
-	tr.Emit(vRec{"ev": "settled", "resident": h.store.Len(), "errs": sec.errCount.Load()})
+	h.emitSettled(sec)
+	tr.Emit(vRec{"ev": "end", "stuck": 0, "skipped": 0})
+	return false
+}
+
+// vHybridSlotReplaced: the secondary store stalls, so evicted entries pile up in the hand-off queue; the key of
+// one that is still queued is deleted and set again, then the workers go on. The worker must deal with the entry
+// it was handed (by identity), not with whatever entry the key's slot holds by then (C02/C15).
+func vHybridSlotReplaced(tr *vTrace, id string, salt int64) (hang bool) {
+	rnd := vRand(salt)
+	start := int64(1 + rnd.Intn(5000))
+	maxsize := int64(2 + rnd.Intn(3))
+	tr.Emit(vRec{"ev": "reset", "id": id, "maxsize": maxsize, "pool": 0, "door": 0, "loading": 0, "mode": "hybrid",
+		"qcap": WriteChanSize, "t": start, "thresh": vThresh(20), "tick": vTickU(20), "failing": 0})
+	h, sec := vNewHybrid(tr, maxsize, false, start)
+	defer func() {
+		h.quiet.Store(true)
+		vDeadStores.Store(h.store, true)
+		vTimed(2*time.Second, h.store.Close)
+		SetVerifHandler(nil)
+		vRemoveClock()
+	}()
+	c := h.client("c1")
+	un := c.register()
+	defer un()
+	sec.holdCh = make(chan struct{})
+	sec.hold.Store(true)
+	released := false
+	release := func() {
+		if !released {
+			released = true
+			sec.hold.Store(false)
+			close(sec.holdCh)
+		}
+	}
+	defer release()
+	// fill until at least three evicted entries have been handed over (two workers are stuck in the store)
+	k := 0
+	for k = 1; k <= 40 && h.handoffs.Load() < 3; k++ {
+		c.Set(k, 1, 0)
+		if !vTimed(3*time.Second, h.store.Wait) {
+			tr.Emit(vRec{"ev": "hang", "p": "c1", "op": "wait"})
+			return true
+		}
+	}
+	sec.hoMu.Lock()
+	n := len(sec.hoKeys)
+	victim := 0
+	if n >= 3 {
+		victim = sec.hoKeys[n-1]
+	}
+	sec.hoMu.Unlock()
+	if victim == 0 {
+		release()
+		tr.Emit(vRec{"ev": "end", "stuck": 1, "skipped": 0})
+		return false
+	}
+	tr.Emit(vRec{"ev": "call", "p": c.name, "op": "hdel", "k": victim, "v": 0, "cost": 0, "ttl": 0, "t": h.nowU()})
+	err := h.store.DeleteWithSecondary(victim)
+	tr.Emit(vRec{"ev": "ret", "p": c.name, "op": "hdel", "ok": vb(err == nil), "v": 0, "n": 0, "n2": 0})
+	c.Set(victim, 1, 0)
+	vTimed(3*time.Second, h.store.Wait)
+	release()
+	if !h.settleHybrid() {
+		tr.Emit(vRec{"ev": "hang", "p": "c1", "op": "settle"})
+		return true
+	}
+	h.emitSettled(sec)
+	tr.Emit(vRec{"ev": "end", "stuck": 0, "skipped": 0})
+	return false
+}
+
+// vHybridUpdateBeforeCopy: an entry is evicted and handed to a worker while its shard is write-locked by
+// somebody who then updates the entry in place (new value, shorter TTL) - the window a Set leaves between the
+// worker taking the item and the worker obtaining the shard's read lock. The copy the worker writes must pair
+// the value with that value's deadline: after the new deadline the key is gone from both tiers (C14/C03).
+// The shard lock is held white-box by the harness, which performs the steps of the Set itself.
+func vHybridUpdateBeforeCopy(tr *vTrace, id string, salt int64) (hang bool) {
+	rnd := vRand(salt)
+	start := int64(1 + rnd.Intn(5000))
+	tr.Emit(vRec{"ev": "reset", "id": id, "maxsize": 4, "pool": 0, "door": 0, "loading": 0, "mode": "hybrid",
+		"qcap": WriteChanSize, "t": start, "thresh": vThresh(20), "tick": vTickU(20), "failing": 0})
+	h, sec := vNewHybrid(tr, 4, false, start)
+	defer func() {
+		h.quiet.Store(true)
+		vDeadStores.Store(h.store, true)
+		vTimed(2*time.Second, h.store.Close)
+		SetVerifHandler(nil)
+		vRemoveClock()
+	}()
+	c := h.client("c1")
+	un := c.register()
+	defer un()
+	s := h.store
+	k := 1 + rnd.Intn(3)
+	c.Set(k, 1, 100000)
+	if !h.settleHybrid() {
+		tr.Emit(vRec{"ev": "hang", "p": "c1", "op": "settle"})
+		return true
+	}
+	hash, idx := s.index(k)
+	sh := s.shards[idx]
+	tk := sh.mu.RLock()
+	e, ok := sh.get(k)
+	sh.mu.RUnlock(tk)
+	if !ok {
+		tr.Emit(vRec{"ev": "end", "stuck": 1, "skipped": 0})
+		return false
+	}
+	takes := sec.takes.Load()
+	// the Set: shard write lock ...
+	v2 := int(h.val.Add(1))
+	ttl2 := int64(900)
+	tr.Emit(vRec{"ev": "call", "p": c.name, "op": "set", "k": k, "v": v2, "cost": 1, "ttl": ttl2, "t": h.nowU()})
+	sh.mu.Lock()
+	// ... while it is held the policy evicts the entry and a worker takes it from the hand-off queue
+	s.policyMu.Lock()
+	s.removeEntry(e, EVICTED)
+	s.policyMu.Unlock()
+	h.waitFor(func() bool { return sec.takes.Load() > takes }, 2*time.Second)
+	time.Sleep(3 * time.Millisecond) // the worker is now waiting for the shard's read lock
+	expire2 := s.timerwheel.clock.ExpireNano(time.Duration(ttl2 << 20))
+	res := s.setShardWithoutLock(sh, hash, k, v2, 1, expire2, false)
+	sh.mu.Unlock()
+	s.toPolicy(res, sh, hash, 1, expire2, false)
+	tr.Emit(vRec{"ev": "ret", "p": c.name, "op": "set", "ok": 1, "v": 0, "n": 0, "n2": 0})
+	if !h.settleHybrid() {
+		tr.Emit(vRec{"ev": "hang", "p": "c1", "op": "settle"})
+		return true
+	}
+	h.emitSettled(sec)
+	hget := func() {
+		tr.Emit(vRec{"ev": "call", "p": c.name, "op": "hget", "k": k, "v": 0, "cost": 0, "ttl": 0, "t": h.nowU()})
+		v, ok, err := s.GetWithSecodary(k)
+		code := 0
+		if err != nil {
+			code = 1
+		}
+		tr.Emit(vRec{"ev": "ret", "p": c.name, "op": "hget", "ok": vb(ok), "v": v, "n": code, "n2": 0})
+	}
+	hget()
+	h.advanceTicking(int64(1200)<<20, 0, true)
+	hget()
+	hget()
 	tr.Emit(vRec{"ev": "end", "stuck": 0, "skipped": 0})
 	return false
 }
@@ -444,6 +636,16 @@ func TestVerif_Hybrid(t *testing.T) {
 	}
 	for i := 0; i < 2+n/10 && hangs == 0; i++ {
 		if vHybridLateJoin(tr, fmt.Sprintf("hylate%d", i), int64(i)) {
+			hangs++
+		}
+	}
+	for i := 0; i < 2+n/10 && hangs == 0; i++ {
+		if vHybridSlotReplaced(tr, fmt.Sprintf("hyslot%d", i), int64(i)) {
+			hangs++
+		}
+	}
+	for i := 0; i < 2+n/10 && hangs == 0; i++ {
+		if vHybridUpdateBeforeCopy(tr, fmt.Sprintf("hyupd%d", i), int64(i)) {
 			hangs++
 		}
 	}
